@@ -138,6 +138,11 @@ def run(chk):
                 (2, 256), (100, 3), (40, 2), (17, 16)]
     if chk.quick:
         bigsizes = bigsizes[:3] + rng.sample(bigsizes[3:], 6)
+    # "all torus sizes" does not stop at what a P2P address can name: tori more than 256 chips across, swept from one
+    # source to EVERY chip in one process (offsets that differ only beyond the eighth bit of a coordinate all occur,
+    # one after the other - round-6 seed torus-path-memo-p2p-key files its memo under (dx << 8) | dy)
+    sweeps = chk.pick([(3, 260)], [(3, 260), (2, 300), (260, 3), (300, 2)])
+    bigsizes = bigsizes + sweeps
 
     def big_points(w, h):
         xs = set(c % w for c in (0, 1, w - 1, w // 2, (w + 1) // 2, w // 2 - 1, rng.randrange(w), rng.randrange(w)))
@@ -165,6 +170,8 @@ def run(chk):
                 pts = big_points(w, h)
                 srcs = rng.sample(pts, 3)
                 chips = None
+                if (w, h) in sweeps:
+                    srcs = srcs[:1]
             else:
                 chips = [(x, y) for x in range(w) for y in range(h)]
             if isbig:
@@ -181,6 +188,8 @@ def run(chk):
                     dests += [((s[0] + w // 2 + rng.randint(-1, 1)) % w, (s[1] + h // 2 + rng.randint(-1, 1)) % h)
                               for _ in range(3)]
                     dests += [((s[0] + dx_) % w, (s[1] + dy_) % h) for dx_, dy_ in ((1, 1), (-1, -1), (-1, 0), (0, -1))]
+                    if (w, h) in sweeps:
+                        dests = [(x_, y_) for x_ in range(w) for y_ in range(h)]
                 else:
                     dests = chips
                 for d in dests:
